@@ -78,6 +78,7 @@ package iso7816
 //@   ensures "le-extended-after-lc": apdu.le > 0 && ext(len(apdu.data), apdu.le) && len(apdu.data) > 0 ==> result === seq((apdu.le / 256) % 256, apdu.le % 256)
 //@   ensures "le-extended-case-2E": apdu.le > 0 && ext(len(apdu.data), apdu.le) && len(apdu.data) == 0 ==> result === leEnc(0, apdu.le)
 //@   ensures "le-field-for-callers": !(apdu.le > 256 && len(apdu.data) == 0) ==> result === leEnc(len(apdu.data), apdu.le)
+//@   ensures "le-two-octets-without-data-as-built": apdu.le > 256 && len(apdu.data) == 0 ==> result === seq((apdu.le / 256) % 256, apdu.le % 256)
 //@   ensures fresh(result)
 //@   assigns nothing
 //@   safety all
@@ -85,7 +86,8 @@ package iso7816
 //@ func (apdu *CApdu) Encode
 //@   props C17
 //@   requires okCApdu(apdu)
-//@   ensures "iso7816-4": result === apdu7816(apdu.cla, apdu.ins, apdu.p1, apdu.p2, apdu.data, apdu.le)
+//@   ensures "iso7816-4": !(apdu.le > 256 && len(apdu.data) == 0) ==> result === apdu7816(apdu.cla, apdu.ins, apdu.p1, apdu.p2, apdu.data, apdu.le)
+//@   ensures "iso7816-4-case-2E": apdu.le > 256 && len(apdu.data) == 0 ==> result === apdu7816(apdu.cla, apdu.ins, apdu.p1, apdu.p2, apdu.data, apdu.le)
 //@   ensures fresh(result)
 //@   assigns nothing
 //@   safety all
@@ -342,6 +344,77 @@ package iso7816
 //@   ensures "no-data-object-no-data": err == nil && !doPresent(old(rApduBytes)[:len(rApduBytes) - 2], 133) && !doPresent(old(rApduBytes)[:len(rApduBytes) - 2], 135) ==> len(rApdu.Data) == 0
 //@   ensures err != nil ==> rApdu == nil
 //@   ensures len(sm.ssc) == old(len(sm.ssc))
+//@   assigns sm.ssc, content(sm.ssc)
+//@   safety all
+
+// ---------------------------------------------------------------- C10: protected command APDUs (ICAO 9303-11 §9.8.4)
+//
+// A protected command is CLA 0C, INS/P1/P2 unchanged, body = [DO'85'/'87'] [DO'97'] DO'8E':
+//   DO'87' (even INS) / DO'85' (odd INS) = 01 || CBC-E(KSenc, IV, pad(data))      only when the command has data
+//   DO'97' = Le octets of the plain command                                        only when a response is expected
+//   DO'8E' = MAC(KSmac, pad(SSC || pad(0C INS P1 P2) || DO'85/87' || DO'97')), SSC already incremented
+// and Le = 00 (short) or 0000 (extended). These spec functions are written from that text.
+//@ spec func doS(tag int, v seq) seq { cat(tagEncS(tag), lenEncS(len(v)), v) }
+//@ spec func smDataDO(alg int, kenc seq, ssc seq, ins int, d seq) seq {
+//@     len(d) == 0 ? seq() : doS(ins % 2 == 0 ? 135 : 133, cat(seq(1), cbcE(alg, kenc, smIV(alg, kenc, ssc), pad2S(d, bsOf(alg))))) }
+//@ spec func smLeDO(le seq) seq { len(le) == 0 ? seq() : doS(151, le) }
+//@ spec func smMacDO(alg int, kmac seq, ssc seq, ins int, p1 int, p2 int, body seq) seq {
+//@     doS(142, smMacS(alg, kmac, pad2S(cat(ssc, pad2S(seq(12, ins, p1, p2), bsOf(alg)), body), bsOf(alg)))) }
+
+//@ func (sm *SecureMessaging) buildTag85or87
+//@   props C10
+//@   requires validSM(sm) && cApdu != nil && nodes != nil && len(cApdu.data) <= 65535
+//@   ensures "never-drops-the-data-object": result == nil
+//@   ensures "encrypted-data-object": nodes.enc === cat(old(nodes.enc), smDataDO(sm.alg, canonKey(sm.alg, sm.ksEnc), sm.ssc, cApdu.ins, cApdu.data))
+//@   ensures "same-or-fresh-array": ref(nodes.nodes) == old(ref(nodes.nodes)) || fresh(nodes.nodes)
+//@   assigns nodes.nodes, content(nodes.nodes), nodes.enc
+//@   safety all
+
+// DO'97' carries Le in one octet (short form) or two octets (extended form); 256 -> 00, 65536 -> 0000.
+//@ spec func smLeOctets(n int, ne int) seq { ne <= 0 ? seq() : (!ext(n, ne) ? seq(ne % 256) : seq((ne / 256) % 256, ne % 256)) }
+//@ func (sm *SecureMessaging) buildTag97
+//@   props C10
+//@   requires okCApdu(cApdu) && nodes != nil
+//@   ensures "le-object-iff-response-expected": nodes.enc === cat(old(nodes.enc), smLeDO(smLeOctets(len(cApdu.data), cApdu.le)))
+//@   ensures "same-or-fresh-array": ref(nodes.nodes) == old(ref(nodes.nodes)) || fresh(nodes.nodes)
+//@   assigns nodes.nodes, content(nodes.nodes), nodes.enc
+//@   safety all
+
+//@ func (sm *SecureMessaging) buildTag8E
+//@   props C10
+//@   requires validSM(sm) && cApdu != nil && nodes != nil
+//@   ensures "mac-never-fails-on-padded-input": err == nil
+//@   ensures "mac-object": nodes.enc === cat(old(nodes.enc), smMacDO(sm.alg, canonKey(sm.alg, sm.ksMac), sm.ssc, cApdu.ins, cApdu.p1, cApdu.p2, old(nodes.enc)))
+//@   ensures "same-or-fresh-array": ref(nodes.nodes) == old(ref(nodes.nodes)) || fresh(nodes.nodes)
+//@   assigns nodes.nodes, content(nodes.nodes), nodes.enc
+//@   safety all
+
+//@ func calcSmLe
+//@   props C10
+//@   requires cApdu != nil
+//@   ensures "le-256-or-65536": result == (ext(len(cApdu.data), cApdu.le) ? 65536 : 256)
+//@   pure
+//@   safety all
+
+// Top level (property C10): the counter is incremented first; the output command has class 0C, the same
+// INS/P1/P2, expects the maximum response length of its form, and its body is exactly the three data objects.
+//@ spec func smBody(alg int, kenc seq, kmac seq, ssc seq, ins int, p1 int, p2 int, d seq, ne int) seq {
+//@     cat(smDataDO(alg, kenc, ssc, ins, d), smLeDO(smLeOctets(len(d), ne)),
+//@         smMacDO(alg, kmac, ssc, ins, p1, p2, cat(smDataDO(alg, kenc, ssc, ins, d), smLeDO(smLeOctets(len(d), ne))))) }
+//@ func (sm *SecureMessaging) Encode
+//@   props C10 C03
+//@   requires validSM(sm)
+//@   requires cApdu != nil ==> okCApdu(cApdu)
+//@   ensures "rejected-iff-nil-or-too-long": (err != nil) == (cApdu == nil
+//@        || len(smBody(sm.alg, canonKey(sm.alg, sm.ksEnc), canonKey(sm.alg, sm.ksMac), sm.ssc, cApdu.ins, cApdu.p1, cApdu.p2, cApdu.data, cApdu.le)) > 65535)
+//@   ensures "counter-advances": cApdu != nil ==>
+//@        (old(beS(sm.ssc)) + 1 < pow256(len(sm.ssc)) ==> beS(sm.ssc) == old(beS(sm.ssc)) + 1) && (old(beS(sm.ssc)) + 1 >= pow256(len(sm.ssc)) ==> beS(sm.ssc) == 0)
+//@   ensures "header": err == nil ==> out != nil && out.cla == 12 && out.ins == cApdu.ins && out.p1 == cApdu.p1 && out.p2 == cApdu.p2
+//@   ensures "expects-full-length": err == nil ==> out.le == (ext(len(cApdu.data), cApdu.le) ? 65536 : 256)
+//@   ensures "body-is-data-le-mac": err == nil ==> out.data === smBody(sm.alg, canonKey(sm.alg, sm.ksEnc), canonKey(sm.alg, sm.ksMac), sm.ssc, cApdu.ins, cApdu.p1, cApdu.p2, cApdu.data, cApdu.le)
+//@   ensures "well-formed-for-transmission": err == nil ==> okCApdu(out)
+//@   ensures err != nil ==> out == nil
+//@   ensures "session-stays-valid": validSM(sm)
 //@   assigns sm.ssc, content(sm.ssc)
 //@   safety all
 
